@@ -22,6 +22,7 @@ package main
 import (
 	"bufio"
 	"bytes"
+	"encoding/json"
 	"fmt"
 	"os"
 	"os/exec"
@@ -881,7 +882,14 @@ func (g *aGen) genOp() *aOp {
 		if len(items) == 0 {
 			return &aOp{Kind: "adelete", Labels: []string{vh.Pick(r, live)}}
 		}
-		switch m := r.Intn(100); {
+		m := r.Intn(100)
+		if m >= 30 && m < 94 && r.Chance(25) {
+			items = items[:1] // the offence alone in its batch (a check that counts the batch would miss it)
+			if m >= 76 && m < 94 {
+				items = nil
+			}
+		}
+		switch {
 		case m < 30:
 			g.tag("insert:clean")
 		case m < 66:
@@ -891,6 +899,9 @@ func (g *aGen) genOp() *aOp {
 			}
 			g.tag("insert:" + g.spoil(items[k].Doc))
 		case m < 76:
+			if len(items) == 0 {
+				items = []aItem{{Label: vh.Pick(r, allLabels()), Doc: g.validDoc()}}
+			}
 			d := items[r.Intn(len(items))]
 			d.Doc, d.NoData = g.validDoc(), false
 			j := r.Intn(len(items) + 1)
@@ -911,6 +922,9 @@ func (g *aGen) genOp() *aOp {
 			g.tag("insert:stored-id+ill")
 		default:
 			g.tag("insert:clean")
+		}
+		if len(items) == 0 {
+			items = []aItem{{Label: vh.Pick(r, allLabels()), Doc: g.validDoc()}}
 		}
 		return &aOp{Kind: "ainsert", Items: items}
 	case x < 82:
@@ -1037,13 +1051,36 @@ func (g *aGen) genOp() *aOp {
 
 // ---------------------------------------------------------------------------------- the run
 
+type recLine struct {
+	Kind string `json:"k"`
+	Op   string `json:"o"`
+	Impl string `json:"i"`
+	NT   bool   `json:"n"`
+}
+
+type failRec struct {
+	Sig    string `json:"sig"`
+	What   string `json:"what"`
+	Replay string `json:"replay"`
+}
+
+// one history runs in its own worker process (a batch the live shard refuses unexpectedly may take the
+// process down — the known finding): the worker collects its lines and hands them over at the end; an oracle
+// failure is written to disk at once, so that it survives the worker
 type acceptRun struct {
-	o      *vh.Out
-	main   *vh.Out
-	tmp    string
-	sigs   map[string]bool
-	counts map[string]int
-	tags   map[string]int
+	tmp      string
+	failPath string
+	Lines    []recLine      `json:"lines"`
+	Fails    []failRec      `json:"fails"`
+	Counts   map[string]int `json:"counts"`
+	Tags     map[string]int `json:"tags"`
+	sigs     map[string]bool
+}
+
+type aEmitter struct{ a *acceptRun }
+
+func (e aEmitter) Emit(kind, op, impl string, nt bool) {
+	e.a.Lines = append(e.a.Lines, recLine{kind, op, impl, nt})
 }
 
 func (a *acceptRun) fail(sig, what string, replay []string) {
@@ -1051,10 +1088,20 @@ func (a *acceptRun) fail(sig, what string, replay []string) {
 		return
 	}
 	a.sigs[sig] = true
-	a.main.Fail(sig, what, strings.Join(replay, "\n"))
+	f := failRec{sig, what, strings.Join(replay, "\n")}
+	a.Fails = append(a.Fails, f)
+	if a.failPath != "" {
+		if fh, err := os.OpenFile(a.failPath, os.O_APPEND|os.O_CREATE|os.O_WRONLY, 0o644); err == nil {
+			b, _ := json.Marshal(f)
+			fh.Write(append(b, '\n'))
+			fh.Sync()
+			fh.Close()
+		}
+	}
 }
 
 func (a *acceptRun) history(r *vh.Rng, h, batches int) {
+	o := aEmitter{a}
 	cfg := aCfg{Backend: "bolt", Max: vh.Pick(r, []int{96, 200, 1000})}
 	if h%4 == 3 {
 		cfg.Backend = "mem"
@@ -1080,8 +1127,8 @@ func (a *acceptRun) history(r *vh.Rng, h, batches int) {
 		panic(err)
 	}
 	defer w.Close()
-	g := &aGen{r: r, cfg: cfg, sp: &aSpec{m: map[string]aEntry{}}, stats: a.tags}
-	a.o.Emit("aschema", cfg.line(), "ok", false)
+	g := &aGen{r: r, cfg: cfg, sp: &aSpec{m: map[string]aEntry{}}, stats: a.Tags}
+	o.Emit("aschema", cfg.line(), "ok", false)
 	hist := []string{cfg.line()} // accepted batches only: what a child replays
 	seenLower := map[string]bool{}
 	for b := 0; b < batches; b++ {
@@ -1096,33 +1143,33 @@ func (a *acceptRun) history(r *vh.Rng, h, batches int) {
 			if !seenLower[s] {
 				seenLower[s] = true
 				if l := strings.ToLower(s); l != s {
-					a.o.Emit("lower", (&Op{Kind: "lower", Raw: s, Low: l}).Line(), "ok", false)
+					o.Emit("lower", (&Op{Kind: "lower", Raw: s, Low: l}).Line(), "ok", false)
 				}
 			}
 		}
 		// the msgpack length of every merged document (Cfg.size is abstract in the model)
 		for _, m := range pred.merged {
-			a.o.Emit("size", "size "+strconv.Itoa(len(encodeDoc(m)))+" "+strings.Join(valTokens(m, nil), " "), "ok", false)
+			o.Emit("size", "size "+strconv.Itoa(len(encodeDoc(m)))+" "+strings.Join(valTokens(m, nil), " "), "ok", false)
 		}
 		var res aResult
 		inChild := !pred.accepted
 		if inChild {
-			a.counts["batches-run-in-child"]++
+			a.Counts["batches-run-in-child"]++
 			oc := runAcceptChild(a.tmp, append(append([]string{}, hist...), op.line()))
 			if oc.verdict == "" {
-				a.counts["child-died-before-verdict"]++
+				a.Counts["child-died-before-verdict"]++
 				if oc.childErr != "" {
-					a.counts["child-error"]++
+					a.Counts["child-error"]++
 					a.fail("accept:child-error", "the child could not replay the accepted history: "+oc.childErr, append(append([]string{}, hist...), op.line()))
 				}
 				continue // dropped: nothing was learnt about this batch
 			}
 			if oc.crashed {
-				a.counts["child-crashed-after-verdict(known finding, not judged)"]++
+				a.Counts["child-crashed-after-verdict(known finding, not judged)"]++
 			}
 			res = aResult{Out: oc.verdict, ErrText: oc.errText}
 			if oc.hasState && strings.HasPrefix(oc.verdict, "rejected") {
-				a.counts["rejected-batch-state-compared"]++
+				a.Counts["rejected-batch-state-compared"]++
 				if mine := stateText(w); mine != oc.state {
 					a.fail("accept:rejected-batch-changed-state:"+op.Kind,
 						"after a rejected batch the shard no longer shows the state before it: before "+mine+" after "+oc.state,
@@ -1139,7 +1186,7 @@ func (a *acceptRun) history(r *vh.Rng, h, batches int) {
 			real := strings.TrimPrefix(out, "rejected:")
 			if real == "index" && pred.reason != "" && pred.reason != "index" {
 				out = "rejected:" + pred.reason
-				a.counts["reason-canonicalised"]++
+				a.Counts["reason-canonicalised"]++
 			}
 		}
 		if realAcc && op.Kind == "ainsert" {
@@ -1156,12 +1203,12 @@ func (a *acceptRun) history(r *vh.Rng, h, batches int) {
 		if !realAcc {
 			kind = op.Kind + ":" + out
 		}
-		a.o.Emit(kind, op.line(), out+" acc="+vh.B01(realAcc), true)
+		o.Emit(kind, op.line(), out+" acc="+vh.B01(realAcc), true)
 		if realAcc != pred.accepted {
 			a.fail(fmt.Sprintf("accept:%s:doc=%s:impl=%s", op.Kind, vh.B01(pred.accepted), vh.B01(realAcc)),
 				fmt.Sprintf("the documentation (read in Go) says acceptable=%v (reason %q), the shard answers %s %s", pred.accepted, pred.reason, res.Out, res.ErrText),
 				append(append([]string{}, hist...), op.line()))
-			a.counts["verdict-disagreements"]++
+			a.Counts["verdict-disagreements"]++
 			return // the real state is no longer the specified one: end of this history
 		}
 		if realAcc {
@@ -1175,15 +1222,15 @@ func (a *acceptRun) history(r *vh.Rng, h, batches int) {
 					}
 				}
 			}
-			a.counts["accepted"]++
+			a.Counts["accepted"]++
 		} else {
-			a.counts["rejected"]++
+			a.Counts["rejected"]++
 		}
 		// the state after the batch (for a rejected batch: unchanged), through the model's own read paths
-		a.o.Emit("search:_id:idany", "search idany "+strconv.Itoa(nLabels)+" "+strings.Join(allLabels(), " "), w.searchRaw(&Q{Kind: "idany", Labels: allLabels()}), false)
+		o.Emit("search:_id:idany", "search idany "+strconv.Itoa(nLabels)+" "+strings.Join(allLabels(), " "), w.searchRaw(&Q{Kind: "idany", Labels: allLabels()}), false)
 		for _, ix := range cfg.Idx {
 			ans := w.dump(ix.Path)
-			a.o.Emit("dump", "dump "+ix.Path, ans, ans != "-")
+			o.Emit("dump", "dump "+ix.Path, ans, ans != "-")
 		}
 	}
 }
@@ -1282,6 +1329,16 @@ func acceptProbe(name string) {
 	case "empty-indexed-string-mem":
 		sh := mk(models.IndexSchema{"s": str(true)}, false)
 		out = ins(sh, u(1), map[string]any{"s": ""}) + " find()=" + find(sh, "s", "")
+	case "vector-dimension-shard":
+		flat := models.IndexSchemaValue{Type: models.IndexTypeVectorFlat, VectorFlat: &models.IndexVectorFlatParameters{VectorSize: 2, DistanceMetric: models.DistanceEuclidean}}
+		sh := mk(models.IndexSchema{"v": flat}, true)
+		out = "dim2:" + ins(sh, u(1), map[string]any{"v": []any{float32(1), float32(2)}}) + " dim3:" + ins(sh, u(2), map[string]any{"v": []any{float32(1), float32(2), float32(3)}})
+		// NB an EMPTY array under a vector index takes the process down at the shard API (conversion.float32ToBytesRaw
+		// indexes element 0 in an index goroutine; CheckCompatibleMap refuses it one layer up): not probed, see notes/Accept.md
+		sh2 := mk(models.IndexSchema{"v": flat}, true)
+		out += " float64-elems:" + ins(sh2, u(4), map[string]any{"v": []any{1.0, 2.0}})
+		sh3 := mk(models.IndexSchema{"t": models.IndexSchemaValue{Type: models.IndexTypeText, Text: &models.IndexTextParameters{Analyser: "standard"}}}, true)
+		out += " text<-int:" + ins(sh3, u(5), map[string]any{"t": int64(5)})
 	case "id-canonical-forms":
 		sh := mk(models.IndexSchema{}, false)
 		id := uuid.MustParse("abcdefab-1111-4111-8111-000000000001")
@@ -1324,6 +1381,8 @@ var acceptProbes = []probe{
 	{Name: "float-float32", What: "float index: an msgpack float32 is refused (`.flt` of the model is float64)", Expected: "rejected"},
 	{Name: "empty-indexed-string-bolt", What: "DESIGN 8 no. 14: an indexed \"\" on the file backend is refused (bbolt: key required) although it is a string", Expected: "rejected"},
 	{Name: "empty-indexed-string-mem", What: "… and taken on the memory backend", Expected: "ok find()=1"},
+	{Name: "vector-dimension-shard", What: "vectorFlat index of dimension 2 at the shard API: the vector cast (`env.vec` of the model) wants an array of msgpack float32; the LENGTH is not checked by the shard (CheckCompatibleMap does, one layer up); a text index wants a string",
+		Expected: "dim2:ok dim3:ok float64-elems:rejected text<-int:rejected"},
 	{Name: "id-canonical-forms", What: "`_id` queries parse the id with uuid.Parse: upper case, urn:uuid:, braces and the 32-digit form name the same point; anything else fails the whole search. Ids are opaque in the model: it stands for the PARSED uuid, the harness sends canonical text only",
 		Expected: "ok 1 1 1 1 1 error error"},
 	{Name: "api-check-compatible-map", What: "one layer up (models.IndexSchema.CheckCompatibleMap, before encoding): numbers for an integer index are converted (3.7 → 3!), an explicit null or \"_delete\" under an integer index is refused there, integers for a float index are refused, arrays on a path are refused",
@@ -1358,11 +1417,74 @@ func runProbes() []probe {
 	return out
 }
 
+// acceptWorker: one history, results as JSON
+func acceptWorker(seed uint64, h, batches int, outPath string) {
+	tmp, err := os.MkdirTemp("", "c02aw")
+	if err != nil {
+		os.Exit(3)
+	}
+	a := &acceptRun{tmp: tmp, failPath: outPath + ".fail", Counts: map[string]int{}, Tags: map[string]int{}, sigs: map[string]bool{}}
+	r := vh.NewRng(mixSeed(seed^0x616363657074) + uint64(h)*0x9E3779B97F4A7C15)
+	a.history(r, h, batches)
+	b, _ := json.Marshal(a)
+	os.WriteFile(outPath, b, 0o644)
+	os.RemoveAll(tmp)
+	os.Exit(0) // do not wait for stray goroutines
+}
+
 func runAccept(seed uint64, dir, tmp string, histories, batches int, main *vh.Out) {
-	a := &acceptRun{o: vh.NewOut(filepath.Join(dir, "accept")), main: main, tmp: tmp, sigs: map[string]bool{}, counts: map[string]int{}, tags: map[string]int{}}
-	r := vh.NewRng(mixSeed(seed ^ 0x616363657074))
+	o := vh.NewOut(filepath.Join(dir, "accept"))
+	counts, tags, sigs := map[string]int{}, map[string]int{}, map[string]bool{}
+	addFail := func(f failRec) {
+		if !sigs[f.Sig] {
+			sigs[f.Sig] = true
+			main.Fail(f.Sig, f.What, f.Replay)
+		}
+	}
 	for h := 0; h < histories; h++ {
-		a.history(r, h, batches)
+		out := filepath.Join(tmp, fmt.Sprintf("aw-%d.json", h))
+		cmd := exec.Command(os.Args[0], "-acceptworker", out, "-seed", strconv.FormatUint(seed, 10), "-accepth", strconv.Itoa(h), "-acceptbatches", strconv.Itoa(batches))
+		cmd.Env = append(os.Environ(), "TMPDIR="+tmp)
+		done := make(chan error, 1)
+		if err := cmd.Start(); err != nil {
+			counts["worker-could-not-start"]++
+			continue
+		}
+		go func() { done <- cmd.Wait() }()
+		select {
+		case <-done:
+		case <-time.After(10 * time.Minute):
+			cmd.Process.Kill()
+			<-done
+		}
+		var a acceptRun
+		if b, err := os.ReadFile(out); err == nil && json.Unmarshal(b, &a) == nil {
+			for _, l := range a.Lines {
+				o.Emit(l.Kind, l.Op, l.Impl, l.NT)
+			}
+			for k, v := range a.Counts {
+				counts[k] += v
+			}
+			for k, v := range a.Tags {
+				tags[k] += v
+			}
+			for _, f := range a.Fails {
+				addFail(f)
+			}
+		} else {
+			// the worker died: its lines are lost (nothing is compared), an oracle failure it found is not
+			counts["worker-died(history dropped)"]++
+			if b, err := os.ReadFile(out + ".fail"); err == nil {
+				for _, l := range strings.Split(string(b), "\n") {
+					var f failRec
+					if json.Unmarshal([]byte(l), &f) == nil && f.Sig != "" {
+						addFail(f)
+					}
+				}
+			}
+		}
+		os.Remove(out)
+		os.Remove(out + ".fail")
 	}
 	probes := runProbes()
 	var drift []probe
@@ -1371,10 +1493,10 @@ func runAccept(seed uint64, dir, tmp string, histories, batches int, main *vh.Ou
 			drift = append(drift, p)
 		}
 	}
-	a.o.Close(map[string]any{
+	o.Close(map[string]any{
 		"rule":             "distinct write batches of the acceptance stream (each compared on result and on acceptance)",
-		"counts":           a.counts,
-		"boundary_classes": a.tags,
+		"counts":           counts,
+		"boundary_classes": tags,
 		"assumptions":      probes,
 		"assumption_drift": drift,
 	})
